@@ -17,8 +17,8 @@ RULE = ("Single-section tables from a pagination-oriented generator: 0-60 rows w
         "by a calibrated filler for the cell's OWN font (1-10) and size (6-24), nrow 1-50, header explicit / "
         "default(auto) / multi-row / none, footnote and source absent / table / paragraph under any placement, "
         "plain / page_by (1-3 levels, new_page on/off) / subline_by with group runs sized relative to the page "
-        "capacity (straddling and not straddling breaks), page_by values and column header labels that wrap to 2-3 "
-        "lines across the table / in their cell; plus an exhaustive sweep header(4) x footnote(3) x "
+        "capacity (straddling and not straddling breaks), page_by values, subline_by values and column header labels that wrap to 2-3 "
+        "lines across the table / the text area / in their cell; plus an exhaustive sweep header(4) x footnote(3) x "
         "source(3) x strategy(3) x nrow 3..12 on 1-line rows. Oracle: per parsed page, sum of independent "
         "lower-bound line weights (PIL on the bundled font files, parsed font/size/\\cellx) of header rows, heading "
         "rows, subline heading, data rows and table footnote/source rows <= nrow, except on a page with exactly "
@@ -35,7 +35,7 @@ def strategy(tier):
     return st.one_of(
         pgen.pag_recipe(fonts=True, max_rows=60, nrow_range=(1, 50), levels_max=3, subline_with_page_by=True, widths=True, nulls=True),
         pgen.pag_recipe(fonts=False, max_rows=40, nrow_range=(2, 14), levels_max=2, nulls=True, widths=True, tall_headings=True),
-        pgen.pag_recipe(fonts=False, max_rows=40, nrow_range=(6, 16), levels_max=2, strategies=("page_by", "page_by_new"), pageby_rows=("column", "first_row"),
+        pgen.pag_recipe(fonts=False, max_rows=40, nrow_range=(6, 16), levels_max=2, strategies=("page_by", "page_by_new", "subline"), pageby_rows=("column", "first_row"),
                         tall_headings=True, fn_src=False, headers=("explicit", "none")),
         # column header labels that wrap to 2-3 lines in their own cell
         pgen.pag_recipe(fonts=False, max_rows=40, nrow_range=(5, 16), levels_max=1, headers=("explicit", "multi"), tall_headers=True, max_height=2),
@@ -122,7 +122,7 @@ def overflows(case, pages, open_auto_header: bool):
             explained = contrib.get("auto_header_unreserved", 0) if open_auto_header else 0
             residual = excess - explained
             info = (f"page {p.number + 1}: {tot} lines > nrow {nrow} (headers {p.header_rows}, headings {len(p.headings)}, data "
-                    f"{[d.weight for d in p.data]}, subline {len(p.sublineheads)}, fn {p.fn_rows}, src {p.src_rows}); contributions {contrib}")
+                    f"{[d.weight for d in p.data]}, subline {max(len(p.sublineheads), p.subline_lines)}, fn {p.fn_rows}, src {p.src_rows}); contributions {contrib}")
             if residual > 0:
                 unexplained = sorted(c for c in contrib if not (c == "auto_header_unreserved" and open_auto_header))
                 sig = "overflow:" + ("+".join(unexplained) if unexplained else "unattributed")
